@@ -4,6 +4,9 @@ use std::io::{BufRead, BufReader, BufWriter, Write};
 use std::panic::{catch_unwind, AssertUnwindSafe};
 
 pub fn silence_panics() {
+    if std::env::var("VH_SHOW_PANICS").is_ok() {
+        return;
+    }
     std::panic::set_hook(Box::new(|_| {}));
 }
 
